@@ -34,7 +34,7 @@ CLAIMS.update({
    technique="Lean 4 proof of permutation/duplication/short-circuit invariance of all aggregators + permutation-class judge on implementation verdicts",
    ref="DESIGN.md §5 C04"),
  "C15": dict(
-   text="Lean theorems on the evaluator model's scope chain, for every scope state: a literal variable resolves to exactly its literal without touching the state; a memoised variable returns the stored result set (every later reference sees the same value); value scopes and parameter contexts are transparent for names they do not bind; inner literals shadow outer definitions; parameters resolve to the argument's result set; unbound names are errors; the documented emptiness exception is stated. The general substitution statement for query variables is judged on every generated abstraction site (file / rule / block / when scope, prefix abstraction, shadowing, twice, unused and erroring variables, parameterised rules) by comparing implementation verdicts.",
+   text="Lean theorems on the evaluator model's scope chain, for every scope state: a literal variable resolves to exactly its literal without touching the state; a memoised variable returns the stored result set (every later reference sees the same value); value scopes and parameter contexts are transparent for names they do not bind; inner literals shadow outer definitions; parameters resolve to the argument's result set; unbound names are errors; the documented emptiness exception is stated; nothing evaluated inside a scope changes its root, its let tables or the parameter bindings (C15_scopes_stable, C15_let_tables_unchanged: whole evaluator, every state). The general substitution statement for query variables is judged on every generated abstraction site (file / rule / block / when scope, prefix abstraction, shadowing, twice, unused and erroring variables, parameterised rules) by comparing implementation verdicts.",
    note="Partial: query-variable substitution for all programs is not proved (needs memo soundness over the fuel-indexed evaluator).",
    technique="Lean 4 proof of scope-chain lemmas + abstraction-site judge on implementation verdicts + correspondence",
    ref="DESIGN.md §5 C15"),
@@ -56,7 +56,7 @@ CLAIMS.update({
    technique="Lean 4 proof over the report model + cross-product judge on the real binary and the library entry point",
    ref="DESIGN.md §5 C07"),
  "C12": dict(
-   text="In the model a batch is a map of runFile over the pairs and runFile starts from St.init where the Rust loops call root_scope; theorems: leftover state is not an input, every pair of a batch equals that pair alone, permuting files permutes results, the batch fails iff a pair fails (with C06). The weight is on the tie: batches of 1..3 rules files sharing variable, rule and key-capture names x 1..4 documents on the real binary, structured and plain, every order of -r/-d, directories with -a and -m (controlled mtimes), --payload lists, each compared with the union of the pairs validated alone.",
+   text="In the model a batch is a map of runFile over the pairs and runFile starts from St.init where the Rust loops call root_scope; theorems: leftover state is not an input, every pair of a batch equals that pair alone, permuting files permutes results, the batch fails iff a pair fails (with C06); and, proved through the whole mutual evaluator, evaluating a rules file from ANY state leaves the scope stack exactly as it found it (C12_scopes_restored, C12_init_stack). The weight is on the tie: batches of 1..3 rules files sharing variable, rule and key-capture names x 1..4 documents on the real binary, structured and plain, every order of -r/-d, directories with -a and -m (controlled mtimes), --payload lists, each compared with the union of the pairs validated alone; `test` files with n cases vs each case alone (plain, json, yaml, junit; both orders; rules that refer to other rules).",
    note="Partial: the isolation theorems hold by construction of the model; what ties them to the code is the batch-vs-singleton comparison (walkdir ordering, file system and mtimes are runtime).",
    technique="Lean 4 theorems on the batch model + batch-vs-singleton judge on the real binary",
    ref="DESIGN.md §5 C12"),
@@ -79,7 +79,7 @@ CLAIMS.update({
    ref="DESIGN.md §5 C18"),
  "C11": dict(
    text="Lean model of the scalar typing cascade and of the tag handling of the libyaml-path loader with theorems: quoted scalars are strings whatever they spell; typing depends on (style, text) only; JSON integers / floats / true / false / null are typed as such; other plain words are strings; the short-form tag tables GENERATED from the source are total, each maps to its documented long form, every loader consults the same table, unknown tags leave the value untouched. Tied by serialising every generated document in six ways (compact / pretty JSON, block / flow YAML, quoted variations, tagged forms) and loading it through all four loaders via the hook: typed values must coincide (4x4 comparison).",
-   note="Partial: libyaml tokenisation and serde_json / serde_yaml are interface, only compared per document. Genuine defect repaired: dac9b90 (loaders consulted different tag sets).",
+   note="Partial: libyaml tokenisation and serde_json / serde_yaml are interface, only compared per document. Genuine defects repaired: dac9b90 (loaders consulted different tag sets), d6c7591 (serde_json float parsing one ulp off).",
    technique="Lean 4 proof of the typing cascade and tag tables (generated) + cross-loader / cross-serialisation judge through the hook",
    ref="DESIGN.md §5 C11"),
  "C14": dict(
@@ -89,7 +89,7 @@ CLAIMS.update({
    ref="DESIGN.md §5 C14"),
  "C19": dict(
    text="Lean model of gen_rules with theorems for every list of resources: one rule per resource type that has properties, one clause per property name of that type, and the value list of a clause contains exactly the rendered values occurring for that (type, property) - so every occurrence satisfies its clause and a fresh value does not. That the emitted text parses to these clauses, that validate reports PASS on the source template and FAIL after mutating a property is judged on the real binary (rulegen -> parse -> validate -> mutate).",
-   note="Known findings F-C19-1..4 (trimmed strings, dotted property names, properties present in only some resources, mixed list/scalar values). Genuine defect repaired: f746749 (hash-order output).",
+   note="Known findings F-C19-1..5 (trimmed strings, dotted property names, properties present in only some resources, mixed list/scalar values, JSON-escaped strings inside nested values). Genuine defect repaired: f746749 (hash-order output).",
    technique="Lean 4 proof over the rulegen model + rulegen->parse->validate->mutate judge on the real binary",
    ref="DESIGN.md §5 C19"),
  "C05": dict(
@@ -98,8 +98,8 @@ CLAIMS.update({
    technique="Lean 4 proof (generated hash-site coverage obligation, permutation invariance, clock independence) + repeat-run judge (fresh processes and in-process)",
    ref="DESIGN.md §5 C05"),
  "C08": dict(
-   text="The model is total: every function is a total Lean function, a Rust panic inside a modelled function is an explicit Outcome.panic. (1) GENERATED obligation: every panic-capable construct (unwrap, expect, unreachable!, panic!, slicing, indexing, narrowing casts, exit) found in the current source per function is in the reviewed baseline (a new one breaks the theorem); (2) with the arities the parser enforces (generated table), no function call indexes out of bounds whatever the argument result sets are; (3) the model predicts panic exactly where the implementation panics (correspondence, catch_unwind). Judged on: adversarial + random parser-accepted programs x documents through run_checks (verbose and report mode); byte/token-mutated rules, data, test, payload and parameter files through validate / test / parse-tree / rulegen in-process and in the real binary (signals, exit status, timeouts); every rules file the grammar rejects must be rejected with line and column and without evaluating any rule.",
-   note="Partial: the nom grammar and libyaml on arbitrary bytes are outside the model (testing only). Known findings F-C08-1 (self-calling parameterised rule overflows the stack) and F-C08-2 (parse time doubles per filter nesting level). Genuine defects repaired: c360fa1, 1ff20c9, 1ce4a53, 3091729, d49a770, 5cf016c, 57f0017, 1adb1d3, 81fec31.",
+   text="The model is total: every function is a total Lean function, a Rust panic inside a modelled function is an explicit Outcome.panic. (1) GENERATED obligation: every panic-capable construct (unwrap, expect, unreachable!, panic!, slicing, indexing, narrowing casts, exit) found in the current source per function is in the reviewed baseline (a new one breaks the theorem); (2) with the arities the parser enforces (generated table), no function call indexes out of bounds whatever the argument result sets are; (3) scope-stack discipline proved for the whole fuel-indexed mutual evaluator (all 17 functions, every program, document, state): the stack pattern match of resolve_variable and resolver.root() after a step cannot fail; (4) the model predicts panic exactly where the implementation panics (correspondence, catch_unwind). Judged on: adversarial + random parser-accepted programs x documents through run_checks (verbose and report mode); byte/token-mutated rules, data, test, payload and parameter files through validate / test / parse-tree / rulegen in-process and in the real binary (signals, exit status, timeouts); every rules file the grammar rejects must be rejected with line and column and without evaluating any rule.",
+   note="Partial: the nom grammar and libyaml on arbitrary bytes are outside the model (testing only). Known findings F-C08-1 (self-calling parameterised rule overflows the stack) and F-C08-2 (parse time doubles per filter nesting level). Genuine defects repaired: c360fa1, 1ff20c9, 1ce4a53, 3091729, d49a770, 5cf016c, 57f0017, 1adb1d3, 81fec31, f0c00fd, de9d89f, d4746fd, afbc8cc, 6b03de4, 1fdce50, a0fc979, a9b2158. Sites labelled `audited` in the baseline are inventoried, not proved unreachable.",
    technique="Lean 4 proof (generated panic-site coverage obligation, no-index-panic theorem, total model) + mutated-input / adversarial-program crash judge",
    ref="DESIGN.md §5 C08"),
  "C10": dict(
